@@ -1,5 +1,5 @@
 (* C13 - connect() and run() end with the documented outcome, and only then. *)
-From Poster Require Import Model.Sim Proofs.ClientP Proofs.RunP Proofs.SimInvP Proofs.SettleP.
+From Poster Require Import Model.Sim Proofs.ClientP Proofs.RunP Proofs.SimInvP Proofs.SettleP Proofs.HandleClosedP.
 
 (* run(): a handler makes the loop exit only for a documented cause, with its outcome.
    Inbound packets (no transport fault): only a server DISCONNECT (Ok for reason 0,
@@ -64,3 +64,12 @@ Print Assumptions C13_exit_is_final.
 Theorem C13_nothing_after_exit : forall (s : sys), cph s = CIdle -> forall n : nat, settle_loop n s = s.
 Proof. intros s Hc n. apply stopped_fix. unfold Stopped. rewrite Hc. exact I. Qed.
 Print Assumptions C13_nothing_after_exit.
+
+(* HandleClosed once every handle is dropped, and not before (Proofs/HandleClosedP.v): a turn of the run loop that reports
+   HandleClosed started in a state whose request queue is empty and in which NO sender of the request channel is left - no
+   handle clone, no operation future holding one (`live_senders` counts both) *)
+Theorem C13_handle_closed_only_when_none_left : forall (s s' : sys), wbudget s = None -> run_turn s = (s', TStop) ->
+  tail_ev s' = tail_ev s ++ [ORun RunHandleClosed] -> live_senders s = 0 /\ msgq s = [].
+Proof. exact handle_closed_only_when_none_left. Qed.
+Print Assumptions C13_handle_closed_only_when_none_left.
+Check (eq_refl : live_senders = fun s => lenN (handles s) + lenN (filter (fun e => holds_sender (snd e)) (ops s))).
